@@ -53,6 +53,10 @@ pub struct Def {
     pub ctx: Ctx6,
     pub neighbours: usize,
     pub len: usize,
+    /// the level carries `fallback_to_usage`: only an EMPTY failing line may print the usage,
+    /// a present invalid value still fails with its own message
+    #[serde(default)]
+    pub usage: bool,
 }
 
 const ENVV: &str = "BPAFMC_N";
@@ -152,7 +156,8 @@ pub fn to_opts(d: &Def) -> Opts {
     let mut fields = neigh;
     let _ = is_pos;
     fields.push(field);
-    let level = Opts::new(P::Seq(fields));
+    let mut level = Opts::new(P::Seq(fields));
+    level.cfg.fallback_to_usage = d.usage;
     match d.ctx {
         Ctx6::InCommand => Opts::new(P::Seq(vec![P::Switch(Names::both('o', "outer")), P::cmd("cmd", level)])),
         _ => level,
@@ -358,9 +363,15 @@ fn check_accepted(d: &Def, unit: &Value, p: &bpaf::OptionParser<Val>, argv: &[To
     let r = run(p, &v3);
     let expect_value = absent_ok(&d.stack);
     let group_absent = d.ctx == Ctx6::InAdjacent && !v3.iter().any(|t| t.0 == b"--grp");
+    // with fallback_to_usage a level that got no items at all answers with its usage
+    let level_empty = d.usage
+        && (v3.is_empty()
+            || (d.ctx == Ctx6::InCommand
+                && v3.iter().position(|t| t.0 == b"cmd").map_or(false, |c| v3[c + 1..].iter().all(|t| t.0 == b"-o" || t.0 == b"--outer"))));
     let ok = match (&r, expect_value || group_absent) {
         (Outcome::Value(_), true) => true,
         (Outcome::Stderr(t), false) => !t.trim().is_empty(),
+        (Outcome::Stdout { text, .. }, false) if level_empty => text.contains("Usage"),
         _ => false,
     };
     if ok {
@@ -371,6 +382,10 @@ fn check_accepted(d: &Def, unit: &Value, p: &bpaf::OptionParser<Val>, argv: &[To
 }
 
 fn env_clause(d: &Def, unit: &Value, p: &bpaf::OptionParser<Val>, ctx: &mut Ctx) {
+    // with fallback_to_usage the empty failing line answers with the usage: not this clause
+    if d.usage {
+        return;
+    }
     // absent from the line, variable holds an invalid value: same conversion, same failure
     for (val, frag) in [(&b"x"[..], "invalid digit found in string"), (&b""[..], "cannot parse integer from empty string"), (&b"1\xff"[..], "is not a valid utf8")] {
         std::env::set_var(ENVV, Tok(val.to_vec()).os());
@@ -569,7 +584,10 @@ impl Check for C06 {
                         if prim == Prim::Pos && c == Ctx6::InAdjacent && false {
                             continue;
                         }
-                        out.push(Def { prim, stack: s.clone(), ctx: c, neighbours, len: tier.pick(3, 4) });
+                        out.push(Def { prim, stack: s.clone(), ctx: c, neighbours, len: tier.pick(3, 4), usage: false });
+                        if neighbours == 0 && matches!(c, Ctx6::Top | Ctx6::InCommand) && (s.len() <= 2 || tier == Tier::Thorough) {
+                            out.push(Def { prim, stack: s.clone(), ctx: c, neighbours, len: tier.pick(3, 4), usage: true });
+                        }
                     }
                 }
             }
@@ -637,7 +655,7 @@ impl Check for C06 {
         }
     }
     fn rule(&self) -> String {
-        "definitions = typed u32 primitive {argument via FromStr, argument via .parse(f), guarded argument, positional, env-backed argument} under EVERY type-correct wrapper stack of depth <= 3 from {guard, hide, fallback, fallback_with ok/err, last, optional, many, some, collect (with and without catch), guard on the list, fallback on the list} in 4 contexts {top-level field, branch of an alternative, inside a sub-command, member of an adjacent group} beside 0..2 neutral items; accepted vectors are discovered on the whole token tree; for each, every typed value occurrence is replaced by each of {x, empty, -1 attached, 99999999999, \\xff, guard-violating 11} -> must be an stderr failure whose text carries the FromStr / parse / guard message (text not demanded inside an alternative, nothing demanded under catch); the item removed -> a value iff the stack defaults when absent, else an stderr failure; env-backed: invalid (unparsable, empty, non-UTF-8) variable with the item absent from the line fails the same way; plus a guard attached to a GROUP of two arguments (plain and adjacent), the group bare / optional / many / some, judged on every vector of length <= 5-6 by a pairing model (k-th --min with k-th --max; a present pair violating the guard must fail with the guard's message, whichever repetition it is); evaluation = one run; non-trivial = accepted vector containing a typed value".into()
+        "definitions = typed u32 primitive {argument via FromStr, argument via .parse(f), guarded argument, positional, env-backed argument} under EVERY type-correct wrapper stack of depth <= 3 from {guard, hide, fallback, fallback_with ok/err, last, optional, many, some, collect (with and without catch), guard on the list, fallback on the list} in 4 contexts {top-level field, branch of an alternative, inside a sub-command, member of an adjacent group} beside 0..2 neutral items, the bare levels also with fallback_to_usage (a present invalid value still fails with its own message); accepted vectors are discovered on the whole token tree; for each, every typed value occurrence is replaced by each of {x, empty, -1 attached, 99999999999, \\xff, guard-violating 11} -> must be an stderr failure whose text carries the FromStr / parse / guard message (text not demanded inside an alternative, nothing demanded under catch); the item removed -> a value iff the stack defaults when absent, else an stderr failure; env-backed: invalid (unparsable, empty, non-UTF-8) variable with the item absent from the line fails the same way; plus a guard attached to a GROUP of two arguments (plain and adjacent), the group bare / optional / many / some, judged on every vector of length <= 5-6 by a pairing model (k-th --min with k-th --max; a present pair violating the guard must fail with the guard's message, whichever repetition it is); evaluation = one run; non-trivial = accepted vector containing a typed value".into()
     }
     fn bounds(&self, tier: Tier) -> Value {
         json!({"stack_depth": 3, "base_vector_length": tier.pick(3, 4)})
